@@ -25,7 +25,7 @@ from .. import normalize as NZ
 from ..facts import Facts as _Facts
 from ..dataflow import Slicer as _Slicer
 
-COMBINATOR = re.compile(r'^(?:std|core)::(option::Option|result::Result)::<.*>::(map|and_then|and|map_or|map_or_else|unwrap_or_else|or_else|ok_or|ok_or_else)$')
+COMBINATOR = re.compile(r'^(?:std|core)::(option::Option|result::Result)::<.*>::(map|and_then|and|map_or|map_or_else|unwrap_or_else|or_else|ok_or|ok_or_else|map_err)$')
 # crate helpers whose contract is decided at the call site (membership test of an id, Err when undefined): written out at every call,
 # so that the helper call and its body pasted in place look the same ("existing helper inlined / reused")
 INLINED_HELPERS = ('instance::as_variable_id', 'instance::as_constraint_id')
@@ -51,7 +51,7 @@ class CombinatorOpener:
 
     def open(self, d):
         if d.get('kind') == 'promoted': return d
-        if not any(b['term']['k'] == 'call' and (COMBINATOR.match(T.strip_generics_tail(b['term'].get('r') or b['term'].get('f') or '')) or self._helper(b['term'])) for b in d['blocks']): return d
+        if not any(b['term']['k'] == 'call' and (COMBINATOR.match(T.strip_generics_tail(b['term'].get('r') or b['term'].get('f') or '')) or self._helper(b['term']) or self._conversion(b['term'])) for b in d['blocks']): return d
         rw = NZ.Rewriter(d)
         rw.promoted_of = lambda v, callee: v if v in self.F.bodies else (('%s::promoted[%s]' % (callee, re.search(r'::promoted\[(\d+)\]$', v).group(1))) if re.search(r'::promoted\[(\d+)\]$', v) else v)
         for _ in range(60):
@@ -62,6 +62,23 @@ class CombinatorOpener:
         for key in ('rp', 'fp', 'r', 'f'):
             nm = t.get(key)
             if nm and any(nm == h or nm.endswith('::' + h) for h in INLINED_HELPERS) and nm in self.F.bodies and self.F.bodies[nm].kind == 'fn': return nm
+        return None
+
+    def _conversion(self, t):
+        """`x.into()` / `T::from(x)` where the crate's `impl From<X> for T` only wraps its argument in one variant of the enum T
+        (derive_more::From, hand-written one-liners): the impl's body, to be written out at the call ("constructor via From")"""
+        nm = t.get('r') or t.get('f') or ''
+        m = re.match(r'^<(.+) as std::convert::Into<(.+)>>::into$', nm)
+        cand = ['<%s as std::convert::From<%s>>::from' % (m.group(2), m.group(1))] if m else []
+        if re.search(r'std::convert::From<.+>>::from$', nm) or re.search(r'impl std::convert::From<.+> for .+>::from$', nm): cand.append(nm)
+        cand += [x for x in (t.get('rp'), t.get('fp')) if x and x.endswith('::from')]
+        for c in cand:
+            b = self.F.bodies.get(c)
+            if b is None or b.kind != 'fn' or len(t['args']) != 1 or b.argc != 1: continue
+            aggs = [st for bi, st in b.stmts() if st['rv']['k'] == 'agg']
+            if len(aggs) != 1 or b.calls or any(st['rv']['k'] not in ('agg', 'use') for bi, st in b.stmts()): continue
+            parent = aggs[0]['rv']['adt'].rsplit('::', 1)[0]
+            if (self.F.adts.get(parent) or {}).get('is_enum'): return c
         return None
 
     def _callable(self, rw, op):
@@ -98,7 +115,7 @@ class CombinatorOpener:
             if b['cleanup'] or t['k'] != 'call' or t.get('c08_opened') or t['t'] < 0: continue
             m = COMBINATOR.match(T.strip_generics_tail(t.get('r') or t.get('f') or ''))
             if not m:
-                hn = self._helper(t)
+                hn = self._helper(t) or self._conversion(t)
                 if hn is not None and not t.get('synthetic'):
                     t['c08_opened'] = True
                     cd = self.body(hn)
@@ -118,7 +135,8 @@ class CombinatorOpener:
         dst = t['dst']; after = t['t']; args = list(t['args'])
         o = args[0]
         if o['k'] not in ('copy', 'move'): return False
-        fpos = {'map': [1], 'and_then': [1], 'and': [], 'map_or': [2], 'map_or_else': [1, 2], 'unwrap_or_else': [1], 'or_else': [1], 'ok_or': [], 'ok_or_else': [1]}[item]
+        fpos = {'map': [1], 'and_then': [1], 'and': [], 'map_or': [2], 'map_or_else': [1, 2], 'unwrap_or_else': [1], 'or_else': [1], 'ok_or': [], 'ok_or_else': [1], 'map_err': [1]}[item]
+        if item == 'map_err' and kind != 'Result': return False
         if item in ('and', 'ok_or') and len(args) != 2: return False
         if item in ('ok_or', 'ok_or_else') and kind != 'Option': return False
         fns = {}
@@ -146,6 +164,11 @@ class CombinatorOpener:
             fail_through(no)
         elif item == 'and_then':
             self._invoke(rw, yes, fns[1], [okp], dst, after, span); fail_through(no)
+        elif item == 'map_err':         # Ok(v) => Ok(v), Err(e) => Err(f(e))
+            B[yes]['st'].append(NZ._agg(dst, ok_adt, [okp], line=line)); rw.goto(yes, after)
+            r = rw.new_local('?'); nxt = rw.new_block()
+            self._invoke(rw, no, fns[1], errargs, NZ._pl(r), nxt, span)
+            B[nxt]['st'].append(NZ._agg(dst, 'std::result::Result::Err', [NZ._mv(r)], line=line)); rw.goto(nxt, after)
         elif item in ('ok_or', 'ok_or_else'):   # Some(v) => Ok(v), None => Err(e) / Err(f())
             B[yes]['st'].append(NZ._agg(dst, 'std::result::Result::Ok', [okp], line=line)); rw.goto(yes, after)
             if item == 'ok_or':
@@ -448,6 +471,8 @@ def errflow_vp(body, local, depth=0, none_variant=0):
     for kind, bi, x in uses:
         if kind == 'call':
             name = x.name
+            if not any(a['k'] in ('copy', 'move') and a['pl']['l'] == local and all(p == '*' for p in a['pl']['p']) for a in x.args):
+                continue            # only a payload (`local as Ok.0`) is handed over: guarded by a discriminant test, judged there
             if T.TRY_BRANCH.search(name):
                 arms = T.try_arms(body, local)
                 if arms:
@@ -799,6 +824,8 @@ def validate_rules(ctx):
         rs = ctx.S.backslice(b, [0])
         for f in ('objective', 'constraints', 'removed_constraints'):
             ctx.check(rs.has_field(INST, f), 'C08.defined/Instance::used_ids/returned/' + f, 'T-CARRY', b.name, 'ids used by self.%s are not part of the returned set' % f, b.site())
+        extra = sorted({f for a, f in rs.fields if a == INST} - {'objective', 'constraints', 'removed_constraints'})
+        ctx.check(not extra, 'C08.defined/Instance::used_ids/only-functions', 'T-CARRY', b.name, 'the used ids also depend on self.%s' % extra, b.site())
         # one instance per collection: some loop over it (one loop may serve both: chain) adds the ids of every element
         optionals = [(RC, 'constraint')]
         for f, opt in (('constraints', None), ('removed_constraints', (RC, 'constraint'))):
@@ -820,6 +847,9 @@ def validate_rules(ctx):
         rs = ctx.S.backslice(b, [0])
         for f in ('objective', 'constraints'):
             ctx.check(rs.has_field(PI, f), 'C08.defined/ParametricInstance::used_ids/returned/' + f, 'T-CARRY', b.name, 'ids used by self.%s are not part of the returned set' % f, b.site())
+        # "exactly": ids that occur only in removed constraints (or anywhere else) need not be defined for a parametric instance
+        extra = sorted({f for a, f in rs.fields if a == PI} - {'objective', 'constraints'})
+        ctx.check(not extra, 'C08.defined/ParametricInstance::used_ids/only-objective-and-constraints', 'T-CARRY', b.name, 'the used ids also depend on self.%s (a well-formed parametric instance is rejected)' % extra, b.site())
     # Function::used_decision_variable_ids dispatches to every payload kind
     b = ctx.method('C08.defined/Function::used_ids/anchor', 'v1::Function', 'used_decision_variable_ids')
     if b is not None:
@@ -924,6 +954,23 @@ def on_every_path(body, sites, also=()):
     stop = tuple(sorted(set(sites) | set(also)))
     if 0 in stop: return True
     return bool(sites) and not (reach_vp(body, [0], stop=stop) & set(body.return_blocks()))
+
+
+def oneof_switches(fb, msg, field, oneof_ty):
+    """case splits on the payload of the oneof field msg.field (an enum of type oneof_ty): (switch_bb, {discriminant: target}, else)"""
+    out = []
+    for bi in sorted(fb.live):
+        t = fb.blocks[bi]['term']
+        if t['k'] != 'switch' or t['d']['k'] == 'const': continue
+        for k2, b2, d in fb.defs_of(t['d']['pl']['l']):
+            if k2 != 'stmt' or d['rv']['k'] != 'discr': continue
+            pl = d['rv']['pl']
+            fs = fields_of_place(pl); p = place_of(fb, pl)
+            typed = value_has_type(fb, pl, oneof_ty)
+            payload = (fs and fs[-1][0].endswith('Option::Some')) or typed
+            if payload and (typed or (p and any(is_field(af, msg, field) for af in p[1]))):
+                out.append((bi, {v: tg for v, tg in t['ts']}, t['else']))
+    return out
 
 
 def used_kernel_rules(ctx):
@@ -1076,8 +1123,25 @@ def enum_parse_rules(ctx):
     if b is not None:
         required_field(ctx, R + '/Function/unset-oneof-is-error', R + '/Function/unset-oneof-propagates', b, 'v1::Function', 'function', 'UnsupportedV1Function', (),
                        'an unset oneof is not reported as UnsupportedV1Function')
-        aggs = sorted({short(st['rv']['adt']) for fb in [b] + list(ctx.F.closures_of(b)) for bi, st in fb.stmts() if st['rv']['k'] == 'agg' and st['rv']['adt'].startswith('function::Function::')})
-        ctx.check(aggs == ['Constant', 'Linear', 'Polynomial', 'Quadratic'], R + '/Function/arms', 'T-TABLE', b.name, 'typed variants produced: %s' % aggs, b.site())
+        # arm by arm: on the arm of oneof variant V (and only there) the typed variant V is built from the arm's payload.
+        # `c.into()` / `Function::from(c)` are written out by the normal form (the From impl's body decides the variant).
+        adt = exact_adt(ctx, 'v1::function::Function'); table = {}
+        for fb in [b] + list(ctx.F.closures_of(b)):
+            for sb, m, els in oneof_switches(fb, 'v1::Function', 'function', 'v1::function::Function'):
+                targets = {m.get(v['discr'], els) for v in (adt or {}).get('variants', [])}
+                for v in (adt or {}).get('variants', []):
+                    tg = m.get(v['discr'], els)
+                    own = set(reach_vp(fb, [tg]))
+                    for t2 in targets - {tg}: own -= reach_vp(fb, [t2])
+                    built = set()
+                    for bi, st in fb.stmts():
+                        if bi in own and st['rv']['k'] == 'agg' and st['rv']['adt'].startswith('function::Function::'):
+                            fs = [af for o in st['rv']['ops'] if o['k'] in ('copy', 'move') for af in T.expr_fields(T.expr(fb, o))]
+                            from_payload = any(af[0].endswith('v1::function::Function::' + v['name']) for af in fs)
+                            built.add(short(st['rv']['adt']) if from_payload else short(st['rv']['adt']) + '(not from the payload)')
+                    table[v['name']] = sorted(built)
+        want = {v['name']: [v['name']] for v in (adt or {}).get('variants', [])}
+        ctx.check(bool(want) and table == want, R + '/Function/arms', 'T-TABLE', b.name, 'typed variant built per oneof arm: %s, expected %s' % (table, want), b.site(), table=str(table))
     # required message fields
     for (ty, item, trait, targs), adt_, field, msg in (((('instance::Instance', 'try_from', 'TryFrom', ['v1::Instance'])), INST, 'objective', 'ommx.v1.Instance'),
                                                        ((CON, 'parse', 'Parse', None), CON, 'function', 'ommx.v1.Constraint'), ((RC, 'parse', 'Parse', None), RC, 'constraint', 'ommx.v1.RemovedConstraint')):
@@ -1409,6 +1473,18 @@ def undefined_error(body, g, kind):
     return built and g.f['err'] and not g.f['ok']
 
 
+def error_path(b, targets, msg_ty, field):
+    """every way from `targets` (the failing side of a test) to an Err-exit passes `.context("ommx.<message>", "<field>")`:
+    the error names the path to the offending field (RawParseError::context / ParseError::context, also inside a map_err
+    closure, which the normal form writes out)"""
+    want = 'ommx.' + '.'.join(msg_ty.split('::'))
+    sites = tuple(sorted({c.bb for c in b.calls if c.item == 'context' and 'ParseError' in c.name and len(c.args) == 3
+                          and lit_of(b, c.args[2]) == field and lit_of(b, c.args[1]) == want}))
+    ts = [t for t in targets if t is not None and t not in sites]
+    if not sites: return False
+    return not (reach_vp(b, sorted(ts), stop=sites) & b.err_exits()) if ts else True
+
+
 def ids_rules(ctx):
     R = 'C08.parse.ids'
     for fn, err in (('as_variable_id', 'UndefinedVariableID'), ('as_constraint_id', 'UndefinedConstraintID')):
@@ -1435,6 +1511,8 @@ def ids_rules(ctx):
         ctx.check(keyed, R + '/Instance/dependency-key-is-checked-id', 'T-CARRY', b.name, 'dependency is stored under an unchecked key', site)
         ctx.check(ok, R + '/Instance/dependency-keys-checked', 'T-LOOPMUST', b.name, 'dependency keys are not checked against the defined variables', site)
         ctx.check(any(undefined_error(b, g, 'variable') for g, c in tests), R + '/Instance/dependency-key-error', 'T-ERRFLOW', b.name, 'an undefined dependency key does not end in UndefinedVariableID', site)
+        ctx.check(any(g.requires(True) and error_path(b, g.f_targets, INST, 'decision_variable_dependency') for g, c in tests), R + '/Instance/dependency-key-error-path', 'T-CONST', b.name,
+                  'the error for an undefined dependency key does not carry the path ommx.v1.Instance[decision_variable_dependency]', site)
     # hints
     for ty, specs in (('v1::OneHot', [('constraint_id', 'constraint', False), ('decision_variables', 'variable', True)]),
                       ('v1::Sos1', [('binary_constraint_id', 'constraint', False), ('big_m_constraint_ids', 'constraint', True), ('decision_variables', 'variable', True)])):
@@ -1448,8 +1526,9 @@ def ids_rules(ctx):
             if tests:
                 ctx.check(any(undefined_error(b, g, kind) for g, c in (good or tests)), R + '/%s.%s/error' % (short(ty), field), 'T-ERRFLOW', b.name, 'an undefined %s does not end in Undefined%sID' % (field, kind.capitalize()), site)
             if not good: continue
+            paths = any(error_path(b, g.f_targets, ty, field) for g, c in good)
             if listy:
-                every = rep = False
+                every = rep = False; rep_path = False
                 for g, c in good:
                     lo = collection_loop(ctx, b, c.bb, ty, field)
                     if lo is None: continue
@@ -1459,11 +1538,18 @@ def ids_rules(ctx):
                     # the tested id is inserted into a set and a repeated id is an error (insert false => Err)
                     k = root_of(b, c.args[1])
                     ins = [x for x in b.calls if x.bb in lo[4] and is_set_insert(x) and k in ctx.S.slice_operand(b, x.args[1]).locals]
-                    if any(gg.requires(True) for x in ins for gg in guards_of_call(b, x)): rep = True
+                    for x in ins:
+                        for gg in guards_of_call(b, x):
+                            if gg.requires(True):
+                                rep = True
+                                if error_path(b, gg.f_targets, ty, field): rep_path = True
                 ctx.check(every, R + '/%s.%s/every-element' % (short(ty), field), 'T-LOOPMUST', b.name, 'an element can skip the check', site)
                 ctx.check(rep, R + '/%s.%s/repeated-is-error' % (short(ty), field), 'T-GUARD', b.name, 'a repeated id is accepted', site)
+                paths = paths and rep_path
             else:
                 ctx.check(any(g.dominates_ok_exits() for g, c in good), R + '/%s.%s/dominates' % (short(ty), field), 'T-MUSTCALL', b.name, 'check does not dominate the Ok-exit', site)
+            ctx.check(paths, R + '/%s.%s/error-path' % (short(ty), field), 'T-CONST', b.name,
+                      'an undefined%s id is not reported with the path %s[%s] (missing `.context(message, "%s")` on the failing side)' % (' or repeated' if listy else '', 'ommx.' + '.'.join(ty.split('::')), field, field), site)
     # every hint of the message is parsed and kept: no element of the lists is dropped before / instead of being checked
     b = ctx.method(R + '/ConstraintHints/anchor', 'v1::ConstraintHints', 'parse', trait='Parse')
     if b is not None:
@@ -1625,5 +1711,5 @@ def check(ctx):
     open_combinators(ctx)
     validate_rules(ctx); used_kernel_rules(ctx); enum_parse_rules(ctx); bound_rules(ctx); ids_rules(ctx); carry_rules(ctx); path_rules(ctx)
     # floors = decided instances on the pinned tree
-    ctx.floor('C08.validate', 4); ctx.floor('C08.dup', 31); ctx.floor('C08.defined', 19); ctx.floor('C08.parse.required', 15); ctx.floor('C08.parse.bound', 12)
-    ctx.floor('C08.parse.ids', 36); ctx.floor('C08.parse.carry', 39); ctx.floor('C08.parse.default', 4); ctx.floor('C08.parse.path', 30); ctx.floor('C08.used-kernel', 8)
+    ctx.floor('C08.validate', 4); ctx.floor('C08.dup', 31); ctx.floor('C08.defined', 21); ctx.floor('C08.parse.required', 15); ctx.floor('C08.parse.bound', 12)
+    ctx.floor('C08.parse.ids', 42); ctx.floor('C08.parse.carry', 39); ctx.floor('C08.parse.default', 4); ctx.floor('C08.parse.path', 30); ctx.floor('C08.used-kernel', 8)
